@@ -662,6 +662,13 @@ fn check_invocation(
         }
     }
 
+    // ---- C03: a successful step whose files are all present gets its completion record
+    if !injected && !matches!(outcome, Outcome::Crash | Outcome::Panic(_)) {
+        for sid in &sh.unrecorded {
+            v.push(viol("C03", "no-record-after-success", format!("s{} completed successfully with all inputs and outputs present, but nothing was appended to the log: it will be re-run although nothing changed", sid)));
+        }
+    }
+
     // ---- C03 online: every started step was dirty at its start
     for (s, d) in &sh.started_dirty {
         if d.is_none() {
@@ -841,14 +848,6 @@ fn check_invocation(
             let mut exp: Vec<u8> = Vec::new();
             let mut last_started: Option<usize> = None;
             let msg = |sid: usize| format!("D s{}", sid);
-            let cmd_of = |sid: usize| -> String {
-                for p in [&p2, p1] {
-                    if let Some(si) = p.step_by_id(sid) {
-                        return p.cmdline(&p.steps[si]);
-                    }
-                }
-                String::new()
-            };
             let hide = |sid: usize| -> bool {
                 for p in [&p2, p1] {
                     if let Some(si) = p.step_by_id(sid) {
@@ -859,8 +858,8 @@ fn check_invocation(
             };
             for t in &sh.tee {
                 match t {
-                    Tee::Started(sid) => {
-                        exp.extend_from_slice(if spec.verbose { cmd_of(*sid) } else { msg(*sid) }.as_bytes());
+                    Tee::Started(sid, cmd) => {
+                        exp.extend_from_slice(if spec.verbose { cmd.clone() } else { msg(*sid) }.as_bytes());
                         exp.push(b'\n');
                         last_started = Some(*sid);
                     }
